@@ -12,8 +12,8 @@ set_option linter.unreachableTactic false
 
 `Tv.Gen.ts_vzscore.step` is written by translator/closures.py from the Rust source on every run.
 The cached-extremum closures of cmp.rs and `ts_vminmaxnorm` run over `rolling_apply_idx` and
-re-read the series inside the closure (rescans); they are outside the translator's subset and
-stay tied to the source by the correspondence run only.
+re-read the series inside the closure (rescans); they are regenerated too (`Tv.Gen.ts_vmin.step`, …,
+`Tv.Gen.ts_vminmaxnorm.step`) and proved to simulate the model's closures below.
 -/
 namespace Tv.C03Gen
 open Tv Tv.GenSim Tv.C03
@@ -658,4 +658,187 @@ theorem ts_vrank_from_source (sqrt : Rat → Rat) (xs : List (Option Rat)) (w : 
   C02Gen.e2e_idx _ xs _ (ts_vrank_effWindow_pos _ w hw) (ts_vrank_exact sqrt .to xs w mp pct rev hw)
     (ts_vrank_exact sqrt .iter xs w mp pct rev hw)
 
+/-! ## `ts_vminmaxnorm` (norm.rs): sentinel-initialised caches, the four-way expiry match and its
+three rescans, regenerated from the source -/
+
+theorem geS_eq (v : Rat) (m : Option Rat) : Gen.geS v m = C03.geS v m := by cases m <;> rfl
+theorem leS_eq (v : Rat) (m : Option Rat) : Gen.leS v m = C03.leS v m := by cases m <;> rfl
+
+theorem foldl_congr_fn {α β : Type} (f g : β → α → β) (h : ∀ b a, f b a = g b a) (l : List α) (b : β) :
+    List.foldl f b l = List.foldl g b l := by
+  have : f = g := by funext b a; exact h b a
+  rw [this]
+
+theorem rescan1 (cmp : Rat → Option Rat → Bool) (g : Nat → Option Rat)
+    (F : Option Rat × Nat → Nat → Option Rat × Nat) (hF : ∀ st i, F st i = sUpd cmp st (g i) i)
+    (m : Option Rat) (k s e : Nat) :
+    List.foldl F (none, k) (List.range' s (e - s)) = sRescan cmp g (m, k) s e := by
+  unfold sRescan
+  exact foldl_congr_fn _ _ hF _ _
+
+theorem rescan2_aux (g : Nat → Option Rat)
+    (F : Option Rat × Nat × Option Rat × Nat → Nat → Option Rat × Nat × Option Rat × Nat)
+    (hF : ∀ a b c d i, F (a, b, c, d) i =
+      ((sUpd C03.geS (a, b) (g i) i).1, (sUpd C03.geS (a, b) (g i) i).2,
+       (sUpd C03.leS (c, d) (g i) i).1, (sUpd C03.leS (c, d) (g i) i).2)) :
+    ∀ (l : List Nat) (a : Option Rat) (b : Nat) (c : Option Rat) (d : Nat),
+    List.foldl F (a, b, c, d) l =
+      ((List.foldl (fun st i => sUpd C03.geS st (g i) i) (a, b) l).1,
+       (List.foldl (fun st i => sUpd C03.geS st (g i) i) (a, b) l).2,
+       (List.foldl (fun st i => sUpd C03.leS st (g i) i) (c, d) l).1,
+       (List.foldl (fun st i => sUpd C03.leS st (g i) i) (c, d) l).2) := by
+  intro l
+  induction l with
+  | nil => intro a b c d; rfl
+  | cons i l ih =>
+    intro a b c d
+    rw [List.foldl_cons, hF, ih]
+    rfl
+
+theorem rescan2 (g : Nat → Option Rat)
+    (F : Option Rat × Nat × Option Rat × Nat → Nat → Option Rat × Nat × Option Rat × Nat)
+    (hF : ∀ a b c d i, F (a, b, c, d) i =
+      ((sUpd C03.geS (a, b) (g i) i).1, (sUpd C03.geS (a, b) (g i) i).2,
+       (sUpd C03.leS (c, d) (g i) i).1, (sUpd C03.leS (c, d) (g i) i).2))
+    (m1 m2 : Option Rat) (k1 k2 s e : Nat) :
+    List.foldl F (none, k1, none, k2) (List.range' s (e - s)) =
+      ((sRescan C03.geS g (m1, k1) s e).1, (sRescan C03.geS g (m1, k1) s e).2,
+       (sRescan C03.leS g (m2, k2) s e).1, (sRescan C03.leS g (m2, k2) s e).2) := by
+  unfold sRescan
+  exact rescan2_aux g F hF _ _ _ _ _
+
+def R_ts_vminmaxnorm (g : Gen.ts_vminmaxnorm.St) (m : MMSt) : Prop :=
+  g.max = m.mx.1 ∧ g.max_idx = m.mx.2 ∧ g.min = m.mn.1 ∧ g.min_idx = m.mn.2 ∧ g.n = m.n
+
+set_option hygiene false in
+/-- after the rescans: the end element, the output and the count of the leaving element -/
+macro "mm_tail" : tactic => `(tactic| (
+  cases hs : C03.get xs s <;> cases v with
+  | none => simp [sUpd, Agree, hs]
+  | some x =>
+    refine ⟨by simp [sUpd, hs], ?_⟩
+    cases a with
+    | none =>
+      cases b with
+      | none => simp [sUpd, C03.geS, C03.leS, Agree, Gen.sentNe, Gen.lift2]
+      | some lo =>
+        by_cases h1 : x ≤ lo <;> by_cases h2 : gn + 1 ≥ mp <;> by_cases h3 : x = lo <;>
+          simp [sUpd, C03.geS, C03.leS, Agree, Gen.sentNe, Gen.lift2, h1, h2, h3]
+    | some hi =>
+      cases b with
+      | none =>
+        by_cases h1 : hi ≤ x <;> by_cases h2 : gn + 1 ≥ mp <;> by_cases h3 : hi = x <;>
+          simp [sUpd, C03.geS, C03.leS, Agree, Gen.sentNe, Gen.lift2, h1, h2, h3]
+      | some lo =>
+        by_cases h0 : hi ≤ x <;> by_cases h1 : x ≤ lo <;> by_cases h2 : gn + 1 ≥ mp <;>
+          simp only [sUpd, C03.geS, C03.leS, h0, h1, h2, decide_true, decide_false, if_true, if_false,
+            Bool.false_eq_true, Option.isSome_some, Bool.true_and, Bool.false_and, true_and, false_and, ge_iff_le] <;>
+          first
+          | (by_cases h3 : x = lo <;> simp [Agree, Gen.sentNe, Gen.lift2, h3]; done)
+          | (by_cases h3 : hi = x <;> simp [Agree, Gen.sentNe, Gen.lift2, h3]; done)
+          | (by_cases h3 : hi = lo <;> simp [Agree, Gen.sentNe, Gen.lift2, h3]; done)
+          | simp [Agree, Gen.sentNe, Gen.lift2]))
+
+theorem ts_vminmaxnorm_step (sqrt : Rat → Rat) (xs : List (Option Rat)) (len w mp : Nat)
+    (g : Gen.ts_vminmaxnorm.St) (m : MMSt) (c : Option Nat × Nat × Option Rat) (h : R_ts_vminmaxnorm g m) :
+    R_ts_vminmaxnorm (Gen.ts_vminmaxnorm.step sqrt xs len w mp g c.1 c.2.1 c.2.2).1 (mmStep (C03.get xs) mp m c).1 ∧
+    Agree sqrt (Gen.ts_vminmaxnorm.step sqrt xs len w mp g c.1 c.2.1 c.2.2).2 (mmStep (C03.get xs) mp m c).2 := by
+  obtain ⟨start, e, v⟩ := c
+  obtain ⟨h0, h1, h2, h3, h4⟩ := h
+  rcases g with ⟨gmax, gmaxi, gmin, gmini, gn⟩
+  rcases m with ⟨⟨mx, mxi⟩, ⟨mn, mni⟩, n⟩
+  simp only at h0 h1 h2 h3 h4
+  subst h0 h1 h2 h3 h4
+  cases start with
+  | none =>
+    cases v with
+    | none =>
+      simp [Gen.ts_vminmaxnorm.step, mmStep, R_ts_vminmaxnorm, sUpd, Agree]
+    | some x =>
+      simp only [Gen.ts_vminmaxnorm.step, mmStep, R_ts_vminmaxnorm, sUpd, geS_eq, leS_eq]
+      refine ⟨by simp, ?_⟩
+      rename' gmax => a, gmin => b
+      cases a with
+      | none =>
+        cases b with
+        | none => simp [sUpd, C03.geS, C03.leS, Agree, Gen.sentNe, Gen.lift2]
+        | some lo =>
+          by_cases h1 : x ≤ lo <;> by_cases h2 : gn + 1 ≥ mp <;> by_cases h3 : x = lo <;>
+            simp [sUpd, C03.geS, C03.leS, Agree, Gen.sentNe, Gen.lift2, h1, h2, h3]
+      | some hi =>
+        cases b with
+        | none =>
+          by_cases h1 : hi ≤ x <;> by_cases h2 : gn + 1 ≥ mp <;> by_cases h3 : hi = x <;>
+            simp [sUpd, C03.geS, C03.leS, Agree, Gen.sentNe, Gen.lift2, h1, h2, h3]
+        | some lo =>
+          by_cases h0 : hi ≤ x <;> by_cases h1 : x ≤ lo <;> by_cases h2 : gn + 1 ≥ mp <;>
+            simp only [sUpd, C03.geS, C03.leS, h0, h1, h2, decide_true, decide_false, if_true, if_false,
+              Bool.false_eq_true, Option.isSome_some, Bool.true_and, Bool.false_and, true_and, false_and, ge_iff_le] <;>
+            first
+            | (by_cases h3 : x = lo <;> simp [Agree, Gen.sentNe, Gen.lift2, h3]; done)
+            | (by_cases h3 : hi = x <;> simp [Agree, Gen.sentNe, Gen.lift2, h3]; done)
+            | (by_cases h3 : hi = lo <;> simp [Agree, Gen.sentNe, Gen.lift2, h3]; done)
+            | simp [Agree, Gen.sentNe, Gen.lift2]
+  | some s =>
+    by_cases c1 : gmaxi < s <;> by_cases c2 : gmini < s <;>
+      simp only [Gen.ts_vminmaxnorm.step, mmStep, R_ts_vminmaxnorm, geS_eq, leS_eq, uget_eq, c1, c2, decide_true, decide_false,
+        Bool.not_true, Bool.not_false, Bool.and_true, Bool.and_false, Bool.true_and, Bool.false_and, if_true, if_false, Bool.false_eq_true]
+    · rw [rescan2 (C03.get xs) _ (by
+        intro a b c d i
+        cases hg : C03.get xs i <;> simp [sUpd]) gmax gmin]
+      dsimp only
+      generalize sRescan C03.geS (C03.get xs) (gmax, gmaxi) s e = MX
+      generalize sRescan C03.leS (C03.get xs) (gmin, gmini) s e = MN
+      obtain ⟨a, ai⟩ := MX
+      obtain ⟨b, bi⟩ := MN
+      clear c1 c2
+      mm_tail
+    · rw [rescan1 C03.geS (C03.get xs) _ (by
+        intro st i
+        cases hg : C03.get xs i <;> simp [sUpd]) gmax]
+      generalize sRescan C03.geS (C03.get xs) (gmax, gmaxi) s e = MX
+      obtain ⟨a, ai⟩ := MX
+      rename' gmin => b, gmini => bi
+      clear c1 c2
+      mm_tail
+    · rw [rescan1 C03.leS (C03.get xs) _ (by
+        intro st i
+        cases hg : C03.get xs i <;> simp [sUpd]) gmin]
+      generalize sRescan C03.leS (C03.get xs) (gmin, gmini) s e = MN
+      obtain ⟨b, bi⟩ := MN
+      rename' gmax => a, gmaxi => ai
+      clear c1 c2
+      mm_tail
+    · rename' gmax => a, gmaxi => ai, gmin => b, gmini => bi
+      clear c1 c2
+      mm_tail
+
+theorem ts_vminmaxnorm_window (len w : Nat) : Gen.ts_vminmaxnorm.effWindow len w = w := rfl
+theorem ts_vminmaxnorm_minPeriods (len w : Nat) (mp : Option Nat) :
+    Gen.ts_vminmaxnorm.minPeriods len w mp = normMp mp w := by
+  simp [Gen.ts_vminmaxnorm.minPeriods, normMp]
+
+/-- the closure regenerated from the source of `ts_vminmaxnorm` (sentinel-initialised caches, the
+four-way expiry match, the three rescans), driven over the index callbacks of either driver shape,
+yields the from-scratch statistic of the window at every position -/
+theorem ts_vminmaxnorm_exact (sqrt : Rat → Rat) (sh : Shape) (xs : List (Option Rat)) (w : Nat) (mp : Option Nat) (hw : 1 ≤ w) :
+    List.Forall₂ (Agree sqrt)
+      (genRunIdx (Gen.ts_vminmaxnorm.step sqrt xs xs.length w (Gen.ts_vminmaxnorm.minPeriods xs.length w mp))
+        (Gen.ts_vminmaxnorm.init xs.length w) (idxCalls sh xs (Gen.ts_vminmaxnorm.effWindow xs.length w)))
+      ((List.range xs.length).map fun i => Spec.tsMinmaxnorm (normMp mp w) (window xs i w)) := by
+  rw [ts_vminmaxnorm_window, ts_vminmaxnorm_minPeriods, ← C03.vminmaxnorm_exact sh xs w mp hw]
+  exact runSt_sim _ _ R_ts_vminmaxnorm (Agree sqrt) (fun s t c hr => ts_vminmaxnorm_step sqrt xs xs.length w _ s t c hr) _ _ _
+    (by simp [R_ts_vminmaxnorm, Gen.ts_vminmaxnorm.init])
+
+/-- regenerated index driver (both shapes) + regenerated closure -/
+theorem ts_vminmaxnorm_from_source (sqrt : Rat → Rat) (xs : List (Option Rat)) (w : Nat) (mp : Option Nat) (hw : 1 ≤ w) :
+    C02Gen.E2EIdx (fun cs => List.Forall₂ (Agree sqrt)
+      (genRunIdx (Gen.ts_vminmaxnorm.step sqrt xs xs.length w (Gen.ts_vminmaxnorm.minPeriods xs.length w mp)) (Gen.ts_vminmaxnorm.init xs.length w) cs)
+      ((List.range xs.length).map fun i => Spec.tsMinmaxnorm (normMp mp w) (window xs i w)))
+      xs (Gen.ts_vminmaxnorm.effWindow xs.length w) :=
+  C02Gen.e2e_idx _ xs _ hw (ts_vminmaxnorm_exact sqrt .to xs w mp hw) (ts_vminmaxnorm_exact sqrt .iter xs w mp hw)
+
+theorem norm_closures_present : "ts_vminmaxnorm" ∈ Gen.closures ∧ Gen.ts_vminmaxnorm.parsed = true ∧
+    Gen.ts_vminmaxnorm.driver = "rolling_apply_idx" := by
+  refine ⟨by simp [Gen.closures], rfl, rfl⟩
 end Tv.C03Gen
